@@ -414,7 +414,7 @@ pub fn property() -> Property {
                 Step::Enumerate { kind: "supervision", count: 96 },
                 Step::Enumerate { kind: "supervision3", count: 4 },
                 Step::Enumerate { kind: "seq4", count: 2 * 14u64.pow(4) },
-                Step::Pbt { kind: "random", cases: 6000, max_len: 48 },
+                Step::Pbt { kind: "random", cases: 20_000, max_len: 48 },
             ],
             Tier::Thorough => vec![
                 Step::Enumerate { kind: "supervision", count: 96 },
